@@ -163,6 +163,7 @@ struct ExpEngine: Engine{
     bool trace_ops=verbose||plan["trace_ops"].as_bool(false);
     AllocCfg cfg; const Json& a=plan["alloc"];
     cfg.reuse=(int)a["reuse"].as_int(1); cfg.c_reuse=(int)a["c_reuse"].as_int(1); cfg.residue=(int)a["residue"].as_int(2); cfg.fill=(int)a["fill"].as_int(0); cfg.seed=(uint64_t)a["seed"].as_int(1);
+    cfg.passthrough=0;
     alloc_run_begin(cfg);
     uint64_t shape=1469598103934665603ULL; bool nontrivial=false; long ncalls=0;
     const Json& ops=plan["ops"];
